@@ -306,6 +306,11 @@ def answer2 (S : Spec) (ws : List String) : String :=
         let ws := if r.2.warnings.isEmpty then "-" else ",".intercalate (r.2.warnings.map fun e => s!"{e.kind}@{e.line}")
         s!"ok w{r.2.warnings.length} {ws}"
     | none => "bad-op"
+  | ["chk", h] =>
+    -- `check_buffer`
+    match bytesOfHex h with
+    | some b => s!"ok {PM.checkBuffer S worldEnv b ((worldEnv.elemOf [65, 85, 84, 79, 83, 65, 82]).getD 0)}"
+    | none => "bad-op"
   | _ => answer S ws
 
 def strBytes (s : String) : Bytes := s.toUTF8.toList
